@@ -392,9 +392,19 @@ func (pm *Portmapper) handleCall(data []byte, remoteAddr net.Addr) ([]byte, erro
 		case 0: // RPCBPROC_NULL
 			result = nil
 		case 1: // RPCBPROC_SET - not implemented
-			result = pm.handleRpcbSet(r)
+			// Only allow SET from localhost, as in portmap v2
+			if !isLoopbackPeer(remoteAddr) {
+				result = pm.encodeBool(false)
+			} else {
+				result = pm.handleRpcbSet(r)
+			}
 		case 2: // RPCBPROC_UNSET - not implemented
-			result = pm.handleRpcbUnset(r)
+			// Only allow UNSET from localhost, as in portmap v2
+			if !isLoopbackPeer(remoteAddr) {
+				result = pm.encodeBool(false)
+			} else {
+				result = pm.handleRpcbUnset(r)
+			}
 		case 3: // RPCBPROC_GETADDR
 			result = pm.handleGetAddr(r)
 		case 4: // RPCBPROC_DUMP
@@ -636,6 +646,17 @@ func (pm *Portmapper) handleGetAddr(r io.Reader) []byte {
 	return buf.Bytes()
 }
 
+// isLoopbackPeer reports whether the peer address is a loopback address
+// (the same rule handleSet and handleUnset apply).
+func isLoopbackPeer(remoteAddr net.Addr) bool {
+	if remoteAddr == nil {
+		return true
+	}
+	host, _, _ := net.SplitHostPort(remoteAddr.String())
+	ip := net.ParseIP(host)
+	return ip == nil || ip.IsLoopback()
+}
+
 // handleRpcbSet handles rpcbind v3/v4 SET procedure
 func (pm *Portmapper) handleRpcbSet(r io.Reader) []byte {
 	// Read rpcb structure
@@ -771,6 +792,11 @@ func (pm *Portmapper) makeReply(xid uint32, status uint32, data []byte) []byte {
 		}
 	} else {
 		binary.Write(&buf, binary.BigEndian, status)
+		if status == PROG_MISMATCH {
+			// RFC 1831: PROG_MISMATCH carries the lowest and highest supported version
+			binary.Write(&buf, binary.BigEndian, uint32(2))
+			binary.Write(&buf, binary.BigEndian, uint32(4))
+		}
 	}
 
 	return buf.Bytes()
